@@ -1037,6 +1037,22 @@ def check_sample(ctx, case):
                 ctx.count('sample.history_step_raised')
                 continue
             sample = out[0]
+            if int(sub['mass'] * 1e6) % 3 == 0:
+                # the judged calculation runs on a copy (copy.copy / copy.deepcopy / pickle) of that object; the
+                # original stays alive and is re-read afterwards: it still serves its own result
+                import copy
+                import pickle
+                how = ('copy', 'deepcopy', 'pickle')[int(sub['mass'] * 1e7) % 3]
+                orig = sample
+                stext = _formula_text(sub)
+                try:
+                    sample = {'copy': copy.copy, 'deepcopy': copy.deepcopy,
+                              'pickle': lambda x: pickle.loads(pickle.dumps(x))}[how](orig)
+                    ctx.count('sample.history.clone.' + how)
+                    alive.append((sub, stext, orig, out[1], out[2], out[3], _snapshot(_products(ctx, orig, stext))))
+                except Exception as exc:
+                    sample = orig
+                    ctx.count('sample.history.clone_raised.' + type(exc).__name__)
             continue
         out = _calculate_sample(ctx, sub)
         if out is None:
